@@ -65,6 +65,8 @@ pub struct GraphCfg {
     pub duplicate_solution_pct: usize,
     /// Hostile programs: arbitrary data-output memories, reads with enormous counts.
     pub hostile: bool,
+    /// Calm programs: no parity leaves and no oversize outputs, inner nodes mostly fold (keeps big graphs acceptable).
+    pub calm: bool,
 }
 
 impl Default for GraphCfg {
@@ -80,6 +82,7 @@ impl Default for GraphCfg {
             slot_collision_pct: 0,
             duplicate_solution_pct: 0,
             hostile: false,
+            calm: false,
         }
     }
 }
@@ -281,7 +284,7 @@ fn build_predicate(ch: &mut Chooser, cfg: &GraphCfg, programs: &mut Vec<Vec<MOp>
         let tag = 1000 + programs.len() as i64;
         let mut p = trace_prologue(ix as u16);
         if leaf {
-            let kinds = [2, 4, 4, if cfg.failing { 1 } else { 0 }, if cfg.failing { 1 } else { 0 }, if cfg.failing { 1 } else { 0 }, cfg.post_weight, 1, if cfg.hostile { 6 } else { 0 }];
+            let kinds = [2, if cfg.calm { 0 } else { 4 }, 4, if cfg.failing { 1 } else { 0 }, if cfg.failing { 1 } else { 0 }, if cfg.failing { 1 } else { 0 }, cfg.post_weight, 1, if cfg.hostile { 6 } else { 0 }];
             match ch.weighted(&kinds) {
                 // hostile data output: arbitrary words as memory
                 8 => {
@@ -312,7 +315,7 @@ fn build_predicate(ch: &mut Chooser, cfg: &GraphCfg, programs: &mut Vec<Vec<MOp>
                 2 => {
                     p.extend(memory_probe());
                     p.extend(fold_stack(tag));
-                    let a = key_universe_first()[*emit_slots % 2];
+                    let a = if cfg.calm { 1000 + *emit_slots as i64 } else { key_universe_first()[*emit_slots % 2] };
                     *emit_slots += 1;
                     p.extend(emit_tail(a, 0));
                 }
@@ -339,7 +342,7 @@ fn build_predicate(ch: &mut Chooser, cfg: &GraphCfg, programs: &mut Vec<Vec<MOp>
                     p.extend(read_block(ch, true));
                     p.extend(fold_stack(tag));
                     if ch.chance(2, 3) {
-                        let a = key_universe_first()[*emit_slots % 2];
+                        let a = if cfg.calm { 1000 + *emit_slots as i64 } else { key_universe_first()[*emit_slots % 2] };
                         *emit_slots += 1;
                         p.extend(emit_tail(a, 0));
                     } else {
@@ -350,13 +353,13 @@ fn build_predicate(ch: &mut Chooser, cfg: &GraphCfg, programs: &mut Vec<Vec<MOp>
                 _ => {
                     p.extend(read_block(ch, false));
                     p.extend(fold_stack(tag));
-                    let a = key_universe_first()[*emit_slots % 2];
+                    let a = if cfg.calm { 1000 + *emit_slots as i64 } else { key_universe_first()[*emit_slots % 2] };
                     *emit_slots += 1;
                     p.extend(emit_tail(a, 0));
                 }
             }
         } else {
-            let kinds = [5, 2, 1, 1, cfg.post_weight, if cfg.failing { 1 } else { 0 }, 1, if cfg.hostile { 3 } else { 0 }];
+            let kinds = [if cfg.calm { 2 } else { 5 }, if cfg.calm { 6 } else { 2 }, 1, 1, cfg.post_weight, if cfg.failing { 1 } else { 0 }, if cfg.calm { 0 } else { 1 }, if cfg.hostile { 3 } else { 0 }];
             match ch.weighted(&kinds) {
                 // hostile read: enormous / boundary count, pre or post, own or external
                 7 => {
